@@ -34,6 +34,10 @@ func genC19(t *rapid.T) any {
 	if kind == "raise" {
 		doc, sc := genC07Doc(t)
 		c.W = &WideQ{Doc: doc, Construct: "raise"}
+		if rapid.Bool().Draw(t, "side") {
+			b := rapid.IntRange(1, 15).Draw(t, "sidebits")
+			c.W.Side = Opts{Unreported: b&1 != 0, Callback: b&2 != 0, Vars: b&4 != 0, Consts: b&8 != 0}
+		}
 		cond := fmt.Sprintf("%s %s %s", sc.k, rapid.SampledFrom([]string{">", "<", "=", ">="}).Draw(t, "cop"), rapid.SampledFrom([]string{"1", "2", "3", "9"}).Draw(t, "cc"))
 		where := fmt.Sprintf("%s %s %s", sc.v, rapid.SampledFrom([]string{">", "<", "!="}).Draw(t, "wop"), rapid.SampledFrom([]string{"0", "1", "2.5"}).Draw(t, "wc"))
 		switch rapid.IntRange(0, 4).Draw(t, "form") {
@@ -310,8 +314,10 @@ func checkC19Raise(c *C19Case) Result {
 	}
 	fires := len(probe.Rows) > 0
 	doc := val.CopyMap(w.Doc)
-	out := Run(doc, c.RaiseSQL, Opts{})
+	side := w.Side // side-channel options (UnReportedErrors handler installed, ...) never turn a RAISE into a success
+	out := Run(doc, c.RaiseSQL, side)
 	res.Execs++
+	res.Labels = append(res.Labels, "options:"+side.String())
 	if out.Panic != "" {
 		res.Violation = c.RaiseSQL + "\n  panic escaped: " + out.Panic
 		return res
